@@ -7,7 +7,7 @@
 import LiquidModel.Drv.FilterOp
 import LiquidModel.Model.Math
 import LiquidModel.Spec.C15
-namespace Liquid.Drv
+namespace Liquid.Drv.C15
 open Liquid Liquid.Codec
 
 def bitsF (n : Nat) : Float := Float.ofBits n.toUInt64
@@ -91,4 +91,4 @@ def c15Op (args : List String) : String :=
           else "ok " ++ c.kind
   | none => "bad-op c15"
 
-end Liquid.Drv
+end Liquid.Drv.C15
